@@ -41,8 +41,7 @@ Print Assumptions C12_order_independent.
 
 (* the functional tree answers lookups like the map *)
 Theorem C12_fun_lookup :
-  forall (V Dg : Type) (zero : Dg) (hleaf : key -> V -> Dg) (hnode : Dg -> Dg -> Dg)
-         (D : nat) (ops : list (@mop V)) (k : key),
+  forall (V : Type) (D : nat) (ops : list (@mop V)) (k : key),
     Forall (fun o => length (mop_key o) = D) ops -> length k = D ->
     c_get k (fold_left c_step ops CE) = m_get (map_after ops) k.
 Proof. exact @fun_get_is_map_get. Qed.
@@ -54,3 +53,45 @@ Example C12_ops_example : Forall (fun o => length (@mop_key lb o) = 256%nat)
 Proof. exact lb_ops_wf. Qed.
 Example C12_map_example : wf_map 256 lb_map.
 Proof. exact lb_map_wf. Qed.
+
+(* ------------------------------------------------------------------------------------------
+   L1: the model of the Rust code (MerkleTree::insert / delete over a hash-addressed node
+   store, PathIter, update_with_path_set, delete_with_path_set) refines the functional tree.
+   The premises are bundled in the record [smt_iface] (Merkle/SparseTree.v), printed below:
+   decidable digest equality; kbit/kcpl read the bits / common prefix of a key; of_bits and
+   bits are mutually inverse on 256-bit keys; and collision-freeness [hash_ok] of the hash
+   functions (needed: the code picks the side of a child by comparing digests and removes
+   stale nodes by digest). *)
+From FV Require Import Merkle.SparseRefine Merkle.SparseTree Merkle.SparseHistory.
+Print smt_iface.
+
+(* After ANY history of inserts, deletes and reloads the model returns no error, its root is
+   the compact sparse Merkle root of the map the history leaves behind, and that map is
+   completely persisted in the node store. *)
+Theorem C12_refine :
+  forall (Dg : Type) (IF : smt_iface Dg) (ops : list (@l1op Dg)),
+    Forall (l1op_wf IF) ops ->
+    exists T, l1_run IF (tree_new []) ops = Some T /\
+              tree_root (i_zero IF) T
+              = smt_root (i_zero IF) (shleaf (i_hleaf IF) (i_of_bits IF)) (i_hnode IF) 256 (map_after (mops IF ops)) /\
+              persisted IF T (map_after (mops IF ops)).
+Proof. exact @run_root. Qed.
+Print Assumptions C12_refine.
+
+Example C12_refine_premises : Forall (l1op_wf lb_iface) lb_history.
+Proof. exact lb_history_wf. Qed.
+
+(* OPEN (not proved; exercised by the correspondence run and the reference-root oracle only):
+   from_set / root_from_set / nodes_from_set return the spec root of the map the set denotes
+   (later duplicates win) and from_set leaves that map persisted. *)
+Definition C12_from_set_full_statement : Prop :=
+  forall (Dg : Type) (IF : smt_iface Dg) (kcmp : Dg -> Dg -> comparison),
+    (forall a b, kcmp a b = bits_compare (i_bits IF a) (i_bits IF b)) ->
+    forall set : list (Dg * bytes),
+      Forall (fun e => length (i_bits IF (fst e)) = 256%nat) set ->
+      let m := map_of_list (map (fun e => (i_bits IF (fst e), i_sum IF (snd e))) set) in
+      let spec := smt_root (i_zero IF) (shleaf (i_hleaf IF) (i_of_bits IF)) (i_hnode IF) 256 m in
+      (exists T, from_set (i_eqb IF) (i_zero IF) (i_hleaf IF) (i_hnode IF) (i_sum IF) (i_kbit IF) (i_kcpl IF) kcmp [] set = Ok T /\
+                 tree_root (i_zero IF) T = spec /\ persisted IF T m) /\
+      root_from_set (i_zero IF) (i_hleaf IF) (i_hnode IF) (i_sum IF) (i_kbit IF) (i_kcpl IF) kcmp set = Ok spec /\
+      (exists nodes, nodes_from_set (i_zero IF) (i_hleaf IF) (i_hnode IF) (i_sum IF) (i_kbit IF) (i_kcpl IF) kcmp set = Ok (spec, nodes)).
